@@ -31,45 +31,127 @@ def docNatives : Scalar → List NativeTy
   | .decimal => [.decimal]
   | .varint => [.varint]
 
-/-- The documented pairs, one nesting level of documentation rule per constructor (`Option` / `MaybeUnset` /
-`MaybeEmpty` wrap any of them: `statements/values.md`). -/
+mutual
+/-- The documented pairs, one documentation rule per constructor, at any nesting depth (`Option` /
+`MaybeUnset` / `MaybeEmpty` wrap any of them: `statements/values.md`; `CqlValue` "can represent any CQL value";
+a Rust tuple of n fields pairs with a CQL tuple of the same n field types). -/
 def docAccepts : Carrier → CqlTy → Bool
-  | .scalar s, .native n => (docNatives s).contains n
+  | .scalar s, t => match t with
+    | .native n => (docNatives s).contains n
+    | _ => false
   | .opt c, t => docAccepts c t
   | .maybeUnset c, t => docAccepts c t
   | .maybeEmpty c, t => docAccepts c t
-  | .vec c, .list e => docAccepts c e          -- `List` <----> `Vec<T>`
-  | .vec c, .set e => docAccepts c e           -- `Set` <----> `Vec<T>`
-  | .vec c, .vector e _ => docAccepts c e      -- `Vector` <----> `Vec<T>`
-  | .hashSet c, .set e => docAccepts c e       -- `Set` is represented as `Vec<T>`, `HashSet<T>` or `BTreeSet<T>`
-  | .btreeSet c, .set e => docAccepts c e
-  | .hashMap k v, .map kt vt => docAccepts k kt && docAccepts v vt   -- `Map` … `HashMap<K, V>` or `BTreeMap<K, V>`
-  | .btreeMap k v, .map kt vt => docAccepts k kt && docAccepts v vt
-  | .tuple [c1], .tuple [t1] => docAccepts c1 t1                      -- `Tuple` <----> Rust tuples
-  | .tuple [c1, c2], .tuple [t1, t2] => docAccepts c1 t1 && docAccepts c2 t2
+  | .vec c, t => match t with
+    | .list e => docAccepts c e          -- `List` <----> `Vec<T>`
+    | .set e => docAccepts c e           -- `Set` <----> `Vec<T>`
+    | .vector e _ => docAccepts c e      -- `Vector` <----> `Vec<T>`
+    | _ => false
+  | .hashSet c, t => match t with
+    | .set e => docAccepts c e           -- `Set` is represented as `Vec<T>`, `HashSet<T>` or `BTreeSet<T>`
+    | _ => false
+  | .btreeSet c, t => match t with
+    | .set e => docAccepts c e
+    | _ => false
+  | .hashMap k v, t => match t with
+    | .map kt vt => docAccepts k kt && docAccepts v vt   -- `Map` … `HashMap<K, V>` or `BTreeMap<K, V>`
+    | _ => false
+  | .btreeMap k v, t => match t with
+    | .map kt vt => docAccepts k kt && docAccepts v vt
+    | _ => false
+  | .tuple cs, t => match t with
+    | .tuple ts => decide (cs.length = ts.length) && docAcceptsZip cs ts   -- `Tuple` <----> Rust tuples
+    | _ => false
+  | .dyn, _ => true
   | _, _ => false
+def docAcceptsZip : List Carrier → List CqlTy → Bool
+  | c :: cs, t :: ts => docAccepts c t && docAcceptsZip cs ts
+  | _, _ => true
+end
 
-/-- The documented pairs plus the three deviations the serialization code itself documents in comments:
+mutual
+/-- The documented pairs plus the deviations the serialization code itself documents in comments:
 set carriers are written through `serialize_sequence`, which takes `List(_) | Set(_)` (value.rs:939-955);
 "Allow CQL tuples with more fields than the Rust tuple" (value.rs:862-865); `MaybeEmpty` first checks
-`supports_special_empty_value` (value.rs:423-429). -/
+`supports_special_empty_value` (value.rs:423-429); `Unset` is a marker for any column. -/
 def docLooseSer : Carrier → CqlTy → Bool
-  | .scalar s, .native n => (docNatives s).contains n
+  | .scalar s, t => match t with
+    | .native n => (docNatives s).contains n
+    | _ => false
+  | .unset, _ => true
   | .opt c, t => docLooseSer c t
   | .maybeUnset c, t => docLooseSer c t
   | .maybeEmpty c, t => t.supportsEmpty && docLooseSer c t
-  | .vec c, .list e => docLooseSer c e
-  | .vec c, .set e => docLooseSer c e
-  | .vec c, .vector e _ => docLooseSer c e
-  | .hashSet c, .set e => docLooseSer c e
-  | .btreeSet c, .set e => docLooseSer c e
-  | .hashSet c, .list e => docLooseSer c e
-  | .btreeSet c, .list e => docLooseSer c e
-  | .hashMap k v, .map kt vt => docLooseSer k kt && docLooseSer v vt
-  | .btreeMap k v, .map kt vt => docLooseSer k kt && docLooseSer v vt
-  | .tuple [c1], .tuple (t1 :: _) => docLooseSer c1 t1
-  | .tuple [c1, c2], .tuple (t1 :: t2 :: _) => docLooseSer c1 t1 && docLooseSer c2 t2
+  | .vec c, t => match t with
+    | .list e => docLooseSer c e
+    | .set e => docLooseSer c e
+    | .vector e _ => docLooseSer c e
+    | _ => false
+  | .hashSet c, t => match t with
+    | .set e => docLooseSer c e
+    | .list e => docLooseSer c e
+    | _ => false
+  | .btreeSet c, t => match t with
+    | .set e => docLooseSer c e
+    | .list e => docLooseSer c e
+    | _ => false
+  | .hashMap k v, t => match t with
+    | .map kt vt => docLooseSer k kt && docLooseSer v vt
+    | _ => false
+  | .btreeMap k v, t => match t with
+    | .map kt vt => docLooseSer k kt && docLooseSer v vt
+    | _ => false
+  | .tuple cs, t => match t with
+    | .tuple ts => decide (cs.length ≤ ts.length) && docLooseZip cs ts
+    | _ => false
+  | .dyn, _ => true
   | _, _ => false
+def docLooseZip : List Carrier → List CqlTy → Bool
+  | c :: cs, t :: ts => docLooseSer c t && docLooseZip cs ts
+  | _, _ => true
+end
+
+mutual
+/-- Carrier types the documentation speaks about on the READ side: everything built from the documented leaves
+by `Option`, `MaybeEmpty`, `Vec`, the set and map types, tuples and `CqlValue` (not `Unset` / `MaybeUnset`,
+which cannot be read, nor the driver-internal iterator types). -/
+def documentedDe : Carrier → Bool
+  | .scalar _ => true
+  | .opt c => documentedDe c
+  | .maybeEmpty c => documentedDe c
+  | .vec c => documentedDe c
+  | .hashSet c => documentedDe c
+  | .btreeSet c => documentedDe c
+  | .hashMap k v => documentedDe k && documentedDe v
+  | .btreeMap k v => documentedDe k && documentedDe v
+  | .tuple cs => documentedDeList cs
+  | .dyn => true
+  | _ => false
+def documentedDeList : List Carrier → Bool
+  | [] => true
+  | c :: cs => documentedDe c && documentedDeList cs
+end
+
+mutual
+/-- Carrier types the documentation speaks about on the WRITE side (adds `Unset` / `MaybeUnset`). -/
+def documentedSer : Carrier → Bool
+  | .scalar _ => true
+  | .unset => true
+  | .opt c => documentedSer c
+  | .maybeUnset c => documentedSer c
+  | .maybeEmpty c => documentedSer c
+  | .vec c => documentedSer c
+  | .hashSet c => documentedSer c
+  | .btreeSet c => documentedSer c
+  | .hashMap k v => documentedSer k && documentedSer v
+  | .btreeMap k v => documentedSer k && documentedSer v
+  | .tuple cs => documentedSerList cs
+  | .dyn => true
+  | _ => false
+def documentedSerList : List Carrier → Bool
+  | [] => true
+  | c :: cs => documentedSer c && documentedSerList cs
+end
 
 /-! ### the finite universes of the comparison -/
 
@@ -95,17 +177,14 @@ def wrapTypes (ts : List CqlTy) : List CqlTy :=
   ts.flatMap (fun t => [.list t, .set t, .vector t 2, .tuple [t], .tuple [t, t, t], .udt "ks" "typ" [("a", t)],
     .map (.native .int) t, .map t (.native .text), .tuple [.native .int, t]])
 
-/-- Carriers of nesting ≤ 1 over ALL leaves (167). -/
-def carriers1 : List Carrier :=
-  emptiable.map (fun s => .maybeEmpty (.scalar s)) ++ wrapCarriers (allScalars.map .scalar)
-/-- Column types of nesting ≤ 1 over ALL natives (200). -/
-def types1 : List CqlTy := allNatives.map .native ++ wrapTypes (allNatives.map .native)
-
-/-- Carriers of nesting exactly 2 over one leaf (64), column types of nesting ≤ 2 over two natives (200). -/
-def carriers2 : List Carrier := wrapCarriers (wrapCarriers [.scalar .i32])
-def types2 : List CqlTy :=
+/-- Carriers of nesting ≤ 2 over two leaves incl. `CqlValue`, `Unset`, `MaybeUnset` (sanity test universe). -/
+def carriersT : List Carrier :=
+  let c0 : List Carrier := [.scalar .i32, .scalar .str, .dyn, .unset, .maybeUnset (.scalar .i32)]
+  c0 ++ wrapCarriers c0
+/-- Column types of nesting ≤ 2 over two natives. -/
+def typesT : List CqlTy :=
   let t0 : List CqlTy := [.native .int, .native .text]
   let t1 := t0 ++ wrapTypes t0
-  t1 ++ wrapTypes t1
+  t1 ++ wrapTypes [.list (.native .int), .tuple [.native .int, .native .text], .udt "ks" "typ" [("a", .native .int)]]
 
 end ScyllaVerif.DocMatrix
